@@ -15,12 +15,10 @@ Only property theorems and their non-vacuity examples live here; helper lemmas a
 Store/NamespaceLemmas.lean (where the invariant `Inv` = "every class `__dict__` has unique keys and
 every cache is empty or equal to the fresh MRO walk" is defined).
 
-Two parts of the sentence are FALSE of the code as it is now and are refuted below from concrete
-histories (replayed on the implementation by harness/props/c13.py):
-  * an `add_parameter` call whose merge re-validation raises has already installed the Parameter
-    and skips the cache invalidation (`C13_full_refuted`);
-  * for Parameters of a `Dynamic` type (Number, Integer) `values()`/serialisation of an instance
-    read the `default` of the per-instance Parameter copy (`dynamic_values_refuted`).
+Both deviations found by this check on an earlier tree are repaired in /repo and the model follows
+the repaired code: a failing `add_parameter` puts the previous class attribute back (9350ff5), and
+`values()`/serialisation of an unset `Dynamic`-type parameter read the class Parameter's default
+(9f6df2c).  The statements below therefore hold for ALL histories.
 -/
 import ParamVerif.Store.NamespaceLemmas
 
@@ -43,26 +41,16 @@ structure Agrees (s : St) : Prop where
   inst_getitem : ∀ (i : IId) (n : Name), instExisting s i n = instGoverning s i n
   /-- `obj.param.values()` / serialisation agree with `getattr(obj, n)` (non-`Dynamic` Parameter types) -/
   inst_values : ∀ (i : IId) (n : Name), instValues s i n = instAttr s i n
-
-/-- the one excluded event: an `add_parameter` call that fails in its merge re-validation -/
-def Op.ok (s : St) (op : Op) : Prop := (step s op).2 ≠ .runtimeError
-
-instance (s : St) (op : Op) : Decidable (Op.ok s op) := by unfold Op.ok; exact inferInstance
-
-def okSeq : St → List Op → Prop
-  | _, [] => True
-  | s, op :: ops => Op.ok s op ∧ okSeq (step s op).1 ops
-
-instance okSeqDec : (s : St) → (ops : List Op) → Decidable (okSeq s ops)
-  | _, [] => isTrue trivial
-  | s, op :: ops => by unfold okSeq; exact @instDecidableAnd _ _ _ (okSeqDec _ ops)
+  /-- the same for Parameters of a `Dynamic` type (Number, Integer), class and instance level -/
+  cls_values_dyn : ∀ (c : CId) (n : Name), clsValuesDyn s c n = clsAttr s c n
+  inst_values_dyn : ∀ (i : IId) (n : Name), instValuesDyn s i n = instAttr s i n
 
 /-- **C13 (one state).**  When every cache is empty or up to date, everything the namespace
 shows agrees with attribute access. -/
-theorem agrees_of_inv (s : St) (h : Inv s) : Agrees s := by
+theorem agrees_of_inv (s : St) (h : Inv s) (hi : InstOk s) : Agrees s := by
   have gi : ∀ (c : CId) (n : Name), aget (nsView s c) n = staticAttr s c n := by
     intro c n; rw [nsView_eq h, computeParams_get h]; rfl
-  refine ⟨gi, ?_, ?_, ?_, ?_, ?_, ?_⟩
+  refine ⟨gi, ?_, ?_, ?_, ?_, ?_, ?_, ?_, ?_⟩
   · intro c n; rw [← aget_isSome_iff_mem_keys, gi]
   · intro c; rw [nsView_eq h]; exact computeParams_nodup s c
   · intro c n; unfold nsDefault clsAttr; rw [gi]
@@ -93,14 +81,33 @@ theorem agrees_of_inv (s : St) (h : Inv s) : Agrees s := by
       cases hs : staticAttr s x.cls n with
       | none => cases aget x.iparams n <;> simp
       | some p => cases aget x.iparams n <;> simp
+  · intro c n; unfold clsValuesDyn nsDefault clsAttr; rw [gi]
+  · intro i n
+    unfold instValuesDyn instAttr instExisting
+    cases hx : s.insts[i]? with
+    | none => rfl
+    | some x =>
+      simp only [gi]
+      cases hs : staticAttr s x.cls n with
+      | some p => cases aget x.iparams n <;> simp
+      | none =>
+        cases ha : aget x.iparams n with
+        | none => simp
+        | some ip =>
+          -- a per-instance copy under a name that is no Parameter of the class: excluded by InstOk
+          have := hi i x n ip hx ha
+          unfold staticAttr at hs
+          cases hd : descriptor s x.cls n with
+          | none => rw [hd] at this; cases this
+          | some po => rw [hd] at hs; cases hs
 
 /-- **C13 (one step).**  Every operation — a namespace read, a class-level assignment on the
-declaring class or on a subclass (copy-on-write), `add_parameter` at any level, instance creation,
-instance assignment, `obj.param[n]` — keeps every cache empty or up to date, unless it is an
-`add_parameter` call that raises. -/
-theorem step_preserves_inv (s : St) (op : Op) (h : Inv s) (hok : Op.ok s op) : Inv (step s op).1 := by
-  suffices H : ∀ s' r, step s op = (s', r) → r ≠ .runtimeError → Inv s' from H _ _ rfl hok
-  intro s' r hstep hne
+declaring class or on a subclass (copy-on-write), `add_parameter` at any level (succeeding or
+raising), instance creation, instance assignment, `obj.param[n]` — keeps every cache empty or up to
+date. -/
+theorem step_preserves_inv (s : St) (op : Op) (h : Inv s) : Inv (step s op).1 := by
+  suffices H : ∀ s' r, step s op = (s', r) → Inv s' from H _ _ rfl
+  intro s' r hstep
   cases op with
   | read c =>
     simp only [step, Prod.mk.injEq] at hstep
@@ -137,8 +144,10 @@ theorem step_preserves_inv (s : St) (op : Op) (h : Inv s) (hok : Op.ok s op) : I
           have h1 := inv_clear_setDict (s := { s with heap := s.heap ++ [{ default := d, hi := hi }] })
             (inv_of_classes (s := s) rfl h) c n s.heap.length
           exact inv_of_classes (s := clearDesc (setDict { s with heap := s.heap ++ [{ default := d, hi := hi }] } c n s.heap.length) c) rfl h1
-        · simp only [Prod.mk.injEq] at hstep
-          exact absurd hstep.2.symm hne
+        · -- the call raised: the class is as it was, no cache was touched
+          simp only [Prod.mk.injEq] at hstep
+          rw [← hstep.1]
+          exact inv_of_classes (s := s) rfl h
   | newInst c kw =>
     simp only [step] at hstep
     split at hstep
@@ -175,40 +184,217 @@ theorem step_preserves_inv (s : St) (op : Op) (h : Inv s) (hok : Op.ok s op) : I
           simp only [Prod.mk.injEq] at hstep; rw [← hstep.1]
           exact inv_of_classes (instantiated_classes hinst) h1
 
-/-- every cache is empty or up to date after any history without a failing `add_parameter` -/
-theorem run_preserves_inv (ops : List Op) (s : St) (h : Inv s) (hok : okSeq s ops) : Inv (run s ops) := by
-  induction ops generalizing s with
-  | nil => simpa [run] using h
-  | cons op ops ih =>
-    obtain ⟨h1, h2⟩ := hok
-    simp only [run, List.foldl_cons]
-    exact ih _ (step_preserves_inv s op h h1) h2
+/-- per-instance copies stay attached to names that are Parameters of the class -/
+theorem step_preserves_instOk (s : St) (op : Op) (h : Inv s) (hi : InstOk s) : InstOk (step s op).1 := by
+  suffices H : ∀ s' r, step s op = (s', r) → InstOk s' from H _ _ rfl
+  intro s' r hstep
+  -- a new per-instance copy for a resolvable name
+  have hcopy : ∀ (s0 s1 : St) (i : IId) (x : Inst) (n : Name) (p ip : PId), InstOk s0 → s0.insts[i]? = some x →
+      (descriptor s0 x.cls n).isSome = true → instantiated s0 i x n p = .ok (s1, ip) → InstOk s1 := by
+    intro s0 s1 i x n p ip h0 hx hd hin
+    unfold instantiated at hin
+    split at hin
+    · simp only [Except.ok.injEq, Prod.mk.injEq] at hin; rw [← hin.1]; exact h0
+    · split at hin
+      · cases hin
+      · rename_i q _
+        simp only [Except.ok.injEq, Prod.mk.injEq] at hin
+        rw [← hin.1]
+        have hlt : i < s0.insts.length := (List.getElem?_eq_some_iff.1 hx).1
+        intro j y m ipm hy hm
+        have hy' : (s0.insts.set i { x with iparams := aset x.iparams n s0.heap.length })[j]? = some y := hy
+        rw [List.getElem?_set] at hy'
+        have hdesc : ∀ c m, descriptor (setInst { s0 with heap := s0.heap ++ [q] } i
+            { x with iparams := aset x.iparams n s0.heap.length }) c m = descriptor s0 c m := by
+          intro c m
+          obtain ⟨e1, e2⟩ := shape_of_classes (s := s0) (s' := setInst { s0 with heap := s0.heap ++ [q] } i
+            { x with iparams := aset x.iparams n s0.heap.length }) rfl
+          unfold descriptor; rw [e1]
+          generalize mroOf s0 c = l
+          induction l with
+          | nil => rfl
+          | cons k l ih => simp only [findIn, e2, ih]
+        rw [hdesc]
+        by_cases e : i = j
+        · subst e
+          simp only [hlt, if_true, Option.some.injEq] at hy'
+          subst hy'
+          have hm' : aget (aset x.iparams n s0.heap.length) m = some ipm := hm
+          rw [aget_aset] at hm'
+          split at hm'
+          · rename_i e; subst e; exact hd
+          · exact h0 i x m ipm hx hm'
+        · simp only [e, if_false] at hy'
+          exact h0 j y m ipm hy' hm
+  cases op with
+  | read c =>
+    simp only [step, Prod.mk.injEq] at hstep
+    rw [← hstep.1]
+    obtain ⟨e1, e2, e3, _⟩ := nsRead_shape s c
+    exact instOk_of e3 e1 (fun k n hk => by rw [e2]; exact hk) hi
+  | clsSet c n v =>
+    simp only [step] at hstep
+    split at hstep
+    · simp only [Prod.mk.injEq] at hstep; rw [← hstep.1]; exact hi
+    · rename_i p owner _
+      split at hstep
+      · simp only [Prod.mk.injEq] at hstep; rw [← hstep.1]; exact hi
+      · rename_i q _
+        by_cases e : owner = c
+        · simp only [e, if_true] at hstep
+          split at hstep <;> (simp only [Prod.mk.injEq] at hstep; rw [← hstep.1])
+          · exact instOk_of (s := s) rfl (fun _ => rfl) (fun _ _ hk => hk) hi
+          · exact hi
+        · simp only [e, if_false] at hstep
+          split at hstep <;> (simp only [Prod.mk.injEq] at hstep; rw [← hstep.1])
+          · exact instOk_cow1 s (s.heap ++ [q]) _ c n _ hi
+          · exact instOk_cow0 s (s.heap ++ [q]) c n _ hi
+  | addParam c n d hi' =>
+    simp only [step] at hstep
+    split at hstep
+    · simp only [Prod.mk.injEq] at hstep; rw [← hstep.1]; exact hi
+    · split at hstep
+      · simp only [Prod.mk.injEq] at hstep; rw [← hstep.1]; exact hi
+      · split at hstep <;> (simp only [Prod.mk.injEq] at hstep; rw [← hstep.1])
+        · exact instOk_cow2 s _ _ c n _ hi
+        · exact instOk_of (s := s) rfl (fun _ => rfl) (fun _ _ hk => hk) hi
+  | newInst c kw =>
+    obtain ⟨e1, e2, e3, _⟩ := nsRead_shape s c
+    have h1 : InstOk (nsRead s c).1 := instOk_of e3 e1 (fun k n hk => by rw [e2]; exact hk) hi
+    simp only [step] at hstep
+    split at hstep
+    · simp only [Prod.mk.injEq] at hstep; rw [← hstep.1]; exact hi
+    · split at hstep <;> (simp only [Prod.mk.injEq] at hstep; rw [← hstep.1])
+      · exact h1
+      · rename_i vals _
+        intro j y m ipm hy hm
+        have hy' : ((nsRead s c).1.insts ++ [({ cls := c, values := vals, iparams := [] } : Inst)])[j]? = some y := hy
+        have hdesc : ∀ c' m', descriptor ({ (nsRead s c).1 with insts := (nsRead s c).1.insts ++
+            [({ cls := c, values := vals, iparams := [] } : Inst)] } : St) c' m' = descriptor (nsRead s c).1 c' m' := by
+          intro c' m'
+          obtain ⟨f1, f2⟩ := shape_of_classes (s := (nsRead s c).1) (s' := { (nsRead s c).1 with insts :=
+            (nsRead s c).1.insts ++ [({ cls := c, values := vals, iparams := [] } : Inst)] }) rfl
+          unfold descriptor; rw [f1]
+          generalize mroOf (nsRead s c).1 c' = l
+          induction l with
+          | nil => rfl
+          | cons k l ih => simp only [findIn, f2, ih]
+        rw [hdesc]
+        rw [List.getElem?_append] at hy'
+        split at hy'
+        · exact h1 j y m ipm hy' hm
+        · cases hd : j - (nsRead s c).1.insts.length with
+          | zero => rw [hd] at hy'; simp at hy'; subst hy'; simp [aget] at hm
+          | succ k => rw [hd] at hy'; simp at hy'
+  | instSet i n v =>
+    simp only [step] at hstep
+    split at hstep
+    · simp only [Prod.mk.injEq] at hstep; rw [← hstep.1]; exact hi
+    · rename_i x hx
+      split at hstep
+      · simp only [Prod.mk.injEq] at hstep; rw [← hstep.1]; exact hi
+      · rename_i p o hd
+        split at hstep
+        · simp only [Prod.mk.injEq] at hstep; rw [← hstep.1]; exact hi
+        · rename_i s1 ip hinst
+          have h1 : InstOk s1 := hcopy s s1 i x n p ip hi hx (by rw [hd]; rfl) hinst
+          split at hstep
+          · rename_i q x1 _ hx1
+            split at hstep <;> (simp only [Prod.mk.injEq] at hstep; rw [← hstep.1])
+            · -- only `values` of instance i changes
+              have hlt : i < s1.insts.length := (List.getElem?_eq_some_iff.1 hx1).1
+              intro j y m ipm hy hm
+              have hy' : (s1.insts.set i { x1 with values := aset x1.values n v })[j]? = some y := hy
+              have hdesc : ∀ c' m', descriptor (setInst s1 i { x1 with values := aset x1.values n v }) c' m'
+                  = descriptor s1 c' m' := by
+                intro c' m'
+                obtain ⟨f1, f2⟩ := shape_of_classes (s := s1)
+                  (s' := setInst s1 i { x1 with values := aset x1.values n v }) rfl
+                unfold descriptor; rw [f1]
+                generalize mroOf s1 c' = l
+                induction l with
+                | nil => rfl
+                | cons k l ih => simp only [findIn, f2, ih]
+              rw [hdesc]
+              rw [List.getElem?_set] at hy'
+              by_cases e : i = j
+              · subst e
+                simp only [hlt, if_true, Option.some.injEq] at hy'
+                subst hy'
+                exact h1 i x1 m ipm hx1 hm
+              · simp only [e, if_false] at hy'
+                exact h1 j y m ipm hy' hm
+            · exact h1
+          · simp only [Prod.mk.injEq] at hstep; rw [← hstep.1]; exact h1
+  | instParam i n =>
+    simp only [step] at hstep
+    split at hstep
+    · simp only [Prod.mk.injEq] at hstep; rw [← hstep.1]; exact hi
+    · rename_i x hx
+      obtain ⟨e1, e2, e3, _⟩ := nsRead_shape s x.cls
+      have h1 : InstOk (nsRead s x.cls).1 := instOk_of e3 e1 (fun k n hk => by rw [e2]; exact hk) hi
+      have hinv1 : Inv (nsRead s x.cls).1 := inv_nsRead h x.cls
+      split at hstep
+      · simp only [Prod.mk.injEq] at hstep; rw [← hstep.1]; exact h1
+      · rename_i p hp
+        split at hstep
+        · simp only [Prod.mk.injEq] at hstep; rw [← hstep.1]; exact h1
+        · rename_i s2 _ hinst
+          simp only [Prod.mk.injEq] at hstep; rw [← hstep.1]
+          -- the namespace entry is what attribute lookup finds (Inv)
+          have hd : (descriptor (nsRead s x.cls).1 x.cls n).isSome = true := by
+            have hns : aget (nsView s x.cls) n = some p := hp
+            rw [nsView_eq h, computeParams_get h] at hns
+            have : descriptor (nsRead s x.cls).1 x.cls n = descriptor s x.cls n := by
+              unfold descriptor; rw [e1]
+              generalize mroOf s x.cls = l
+              induction l with
+              | nil => rfl
+              | cons k l ih => simp only [findIn, e2, ih]
+            rw [this]
+            cases hdd : descriptor s x.cls n with
+            | none => rw [hdd] at hns; cases hns
+            | some po => rfl
+          exact hcopy _ s2 i x n p _ h1 (by rw [e3]; exact hx) hd hinst
 
-/-- **C13 (all histories), partial.**  After *any* interleaving of namespace reads, class-level
-assignments at every level, `add_parameter` at every level, instance creation, instance
-assignments and `obj.param[n]` accesses in which no `add_parameter` call raises, the `.param`
-namespace of every class and instance agrees with attribute access. -/
-theorem namespace_agrees_partial (s : St) (ops : List Op) (h : Inv s) (hok : okSeq s ops) :
-    Agrees (run s ops) :=
-  agrees_of_inv _ (run_preserves_inv ops s h hok)
+/-- the invariants hold after any history -/
+theorem run_preserves_inv (ops : List Op) (s : St) (h : Inv s) (hi : InstOk s) :
+    Inv (run s ops) ∧ InstOk (run s ops) := by
+  induction ops generalizing s with
+  | nil => exact ⟨by simpa [run] using h, by simpa [run] using hi⟩
+  | cons op ops ih =>
+    simp only [run, List.foldl_cons]
+    exact ih _ (step_preserves_inv s op h) (step_preserves_instOk s op h hi)
+
+/-- **C13 (all histories).**  After *any* interleaving of namespace reads, class-level assignments
+at every level, `add_parameter` at every level (whether it succeeds or raises), instance creation,
+instance assignments and `obj.param[n]` accesses, the `.param` namespace of every class and
+instance agrees with attribute access — for `Dynamic` Parameter types too. -/
+theorem namespace_agrees (s : St) (ops : List Op) (h : Inv s) (hi : InstOk s) : Agrees (run s ops) :=
+  agrees_of_inv _ (run_preserves_inv ops s h hi).1 (run_preserves_inv ops s h hi).2
 
 /-- freshly created classes (no cache computed yet, `__dict__`s are dicts) satisfy the invariant -/
 theorem fresh_inv (s : St) (hd : ∀ (c : CId) (k : Cls), s.classes[c]? = some k → (akeys k.dict).Nodup)
     (hc : ∀ (c : CId) (k : Cls), s.classes[c]? = some k → k.cache = []) : Inv s :=
   ⟨hd, fun c k hk => Or.inl (hc c k hk)⟩
 
-/-- the statement of the property without the exclusion -/
-def C13_full : Prop := ∀ (s : St) (ops : List Op), Inv s → Agrees (run s ops)
+/-- before any instance exists there is nothing to check about instances -/
+theorem fresh_instOk (s : St) (h : s.insts = []) : InstOk s := by
+  intro i x n ip hx; rw [h] at hx; simp at hx
+
+/-- the statement of the property: from freshly created classes, after every history -/
+def C13_full : Prop :=
+  ∀ (s : St) (ops : List Op), Inv s → s.insts = [] → Agrees (run s ops)
+
+/-- **C13, full statement: holds.** -/
+theorem C13_full_holds : C13_full :=
+  fun s ops h hi => namespace_agrees s ops h (fresh_instOk s hi)
 
 /-- A: x (default 1, upper bound 5);  B(A) -/
 def witnessClasses : St :=
   { heap := [{ default := 1, hi := some 5 }],
     classes := [{ mro := [0], dict := [("x", 0)], cache := [] }, { mro := [1, 0], dict := [], cache := [] }],
     insts := [] }
-
-/-- `list(B.param)`; `B.param.add_parameter('x', P(default=9))` — raises RuntimeError, but `B.x` is
-already the new Parameter while `B.param['x']` is still `A`'s -/
-def witnessFailedAdd : List Op := [.read 1, .addParam 1 "x" 9 none]
 
 theorem witnessClasses_inv : Inv witnessClasses := by
   apply fresh_inv
@@ -223,56 +409,18 @@ theorem witnessClasses_inv : Inv witnessClasses := by
     | 1, hk => simp [witnessClasses] at hk; subst hk; rfl
     | c + 2, hk => simp [witnessClasses] at hk
 
-/-- **C13, full statement: refuted.**  A failed `add_parameter` leaves the namespace of the class
-disagreeing with attribute access. -/
-theorem C13_full_refuted : ¬ C13_full := by
-  intro h
-  have := (h witnessClasses witnessFailedAdd witnessClasses_inv).getitem 1 "x"
-  revert this
-  decide
-
-/-- the statement for Parameters of a `Dynamic` type (Number, Integer): `values()`/serialisation
-of an instance agree with `getattr` -/
-def dynamic_values_full : Prop :=
-  ∀ (s : St) (ops : List Op), Inv s → okSeq s ops →
-    ∀ (i : IId) (n : Name), instValuesDyn (run s ops) i n = instAttr (run s ops) i n
-
-/-- `b = B()`; `b.param['x']` (per-instance copy); `A.x = 4`: `b.x == 4`, `b.param.values()['x'] == 1` -/
-def witnessDynamic : List Op := [.newInst 1 [], .instParam 0 "x", .clsSet 0 "x" 4]
-
-/-- **C13 for `Dynamic` Parameter types: refuted** (no failing call involved). -/
-theorem dynamic_values_refuted : ¬ dynamic_values_full := by
-  intro h
-  have := h witnessClasses witnessDynamic witnessClasses_inv (by decide) 0 "x"
-  revert this
-  decide
-
-/-- what does hold for `Dynamic` types: agreement whenever the instance has no per-instance copy
-of that Parameter, or holds its own value -/
-theorem dynamic_values_partial (s : St) (h : Inv s) (i : IId) (x : Inst) (n : Name)
-    (hx : s.insts[i]? = some x)
-    (hc : aget x.iparams n = none ∨ ((aget x.values n).isSome ∧ (staticAttr s x.cls n).isSome)) :
-    instValuesDyn s i n = instAttr s i n := by
-  have gi := (agrees_of_inv s h).getitem x.cls n
-  unfold instValuesDyn instAttr instExisting
-  simp only [hx]
-  rcases hc with hc | ⟨hv, hs⟩
-  · rw [hc, gi]
-    cases staticAttr s x.cls n <;> simp
-  · rw [gi]
-    obtain ⟨v, hv⟩ := Option.isSome_iff_exists.1 hv
-    obtain ⟨p, hs⟩ := Option.isSome_iff_exists.1 hs
-    rw [hs, hv]
-    cases aget x.iparams n <;> simp
-
 /-! ### Non-vacuity: concrete hierarchies and histories that meet the hypotheses -/
 
 example : Inv witnessClasses := witnessClasses_inv
+example : InstOk witnessClasses := fresh_instOk _ rfl
 /-- stale-cache scenario of the design round: read the subclass, then change an ancestor -/
-example : okSeq witnessClasses
-    [.read 1, .clsSet 1 "x" 3, .addParam 0 "z" 2 none, .newInst 1 [("x", 4)], .instParam 0 "z",
-     .addParam 1 "z" 7 (some 8), .instSet 0 "z" 9, .clsSet 0 "x" 9] := by decide
 example : staticAttr (run witnessClasses [.read 1, .clsSet 1 "x" 3]) 1 "x" = some 1 := by decide
-example : ¬ Op.ok (run witnessClasses [.read 1]) (.addParam 1 "x" 9 none) := by decide
+/-- the formerly failing histories: a raising `add_parameter` after a namespace read … -/
+example : (step (run witnessClasses [.read 1]) (.addParam 1 "x" 9 none)).2 = .runtimeError ∧
+    aget (nsView (run witnessClasses [.read 1, .addParam 1 "x" 9 none]) 1) "x" = some 0 ∧
+    staticAttr (run witnessClasses [.read 1, .addParam 1 "x" 9 none]) 1 "x" = some 0 := by decide
+/-- … and a class-level assignment after a per-instance copy was taken (`Dynamic` type) -/
+example : instValuesDyn (run witnessClasses [.newInst 1 [], .instParam 0 "x", .clsSet 0 "x" 4]) 0 "x" = some 4 ∧
+    instAttr (run witnessClasses [.newInst 1 [], .instParam 0 "x", .clsSet 0 "x" 4]) 0 "x" = some 4 := by decide
 
 end ParamVerif.Store.Namespace
